@@ -28,7 +28,7 @@ def impl_res(part):
 class C19(vlib.Spec):
     model_vo = ["theories/Partition/Model.vo", "theories/Gen/OpsTable.vo"]
     props_vo = "theories/Props/C19.vo"
-    theorems = ["C19_reported_cycle_is_real", "C19_rejects_iff_cycle", "C19_acyclic_accepted",
+    theorems = ["C19_reported_cycle_is_real", "C19_rejects_iff_cycle", "C19_acyclic_accepted", "C19_oracle_correct",
                 "C19_refuted_delayed_self_loop", "C19_refuted_access_conflict"]
     crate, group, binary = "h_partition", "dfir", "h_partition"
     imports = ("From Coq Require Import List String NArith.\n"
